@@ -244,3 +244,49 @@ func C05_TagCase() {
 	verif.Assert(got.A == a && got.X == x && got.V == v && got.W == w, "exact tags bind their own keys")
 	verif.Reach("checked")
 }
+
+type Inner7 struct {
+	Name string
+	X    int
+	Host string
+}
+
+type T7 struct {
+	Name   string
+	X      int
+	Host   string
+	Inner7 Inner7
+	After  int
+}
+
+// C05_UnmarshalNested: end to end with a nested definition whose fields have
+// the same names as fields of the enclosing definition (each keeps its own
+// value), with fields of the parent written before and after the child.
+func C05_UnmarshalNested() {
+	d := verif.Bytes("digits", 3)
+	for _, c := range d {
+		verif.Assume(c >= '0' && c <= '9')
+	}
+	var pre, post string
+	switch verif.Choice("order", 3) {
+	case 0: // parent fields first
+		pre = " x = 1" + string(d[:1]) + "\n host = \"p\"\n"
+	case 1: // parent fields after the child
+		post = " x = 1" + string(d[:1]) + "\n host = \"p\"\n"
+	default: // one before, one after
+		pre = " x = 1" + string(d[:1]) + "\n"
+		post = " host = \"p\"\n"
+	}
+	src := "def t7 \"top\" {\n" + pre +
+		" def inner7 \"in\" {\n  x = 2" + string(d[1:2]) + "\n  host = \"c\"\n }\n" + post +
+		" after = 3" + string(d[2:3]) + "\n}\nbind t7 -> struct\n"
+	var got T7
+	out, log := &symio.Writer{}, &symio.Writer{}
+	err := bcl.Unmarshal([]byte(src), &got, bcl.OptOutput(out), bcl.OptLogger(log))
+	verif.Observe("err", err)
+	verif.Assert(err == nil, "unmarshal succeeds")
+	verif.Assert(got.Name == "top" && got.X == 10+int(d[0]-'0') && got.Host == "p", "parent fields reproduced")
+	verif.Assert(got.Inner7.Name == "in" && got.Inner7.X == 20+int(d[1]-'0') && got.Inner7.Host == "c", "child fields reproduced")
+	verif.Assert(got.After == 30+int(d[2]-'0'), "field after the child reproduced")
+	verif.Reach("checked")
+}
